@@ -1,6 +1,6 @@
 //! Provides the [`AcScan`] object, used to scan for all variables in a single AC pass.
+use std::collections::HashMap;
 use std::collections::hash_map::Entry;
-use std::collections::{HashMap, HashSet};
 
 use aho_corasick::{AhoCorasick, AhoCorasickBuilder, AhoCorasickKind};
 
@@ -63,8 +63,6 @@ impl AcScan {
             if var.matcher.literals.is_empty() {
                 non_handled_var_indexes.push(variable_index);
             } else {
-                let mut known_literals_of_var = HashSet::new();
-
                 for (literal_index, lit) in var.matcher.literals.iter().enumerate() {
                     let (start, end) = pick_atom_in_literal(lit);
                     let mut atom = lit[start..(lit.len() - end)].to_vec();
@@ -74,32 +72,10 @@ impl AcScan {
                         slice_offset: (start, end),
                     };
 
-                    // Sometimes, two literals of the same variable can provide the same atom.
-                    // This can happen if the two literals are identical (for example, someone
-                    // like me writing a test on `/(abc|abc)/`), or if the literals are
-                    // different but contain the same atom (for example,
-                    // `{ ( 00 AB CD | AB CD 00 ) }`).
-                    //
-                    // In those cases, we must *not* use the same atom twice in the Aho-Corasick,
-                    // as this would result in two identical matches for the same variable.
-                    // To prevent this, a set is used here. Both the atom itself and its position
-                    // in the literal are important.
-                    {
-                        let mut dedup_atom = atom.clone();
-
-                        // See `test_nocase_alternate_case` test. If the variable is "nocase",
-                        // then make sure we don't add to the AC two different atoms that
-                        // results in the same lowercase string. This shouldn't be done outside
-                        // of the "nocase" scenario, since different cases will be validated
-                        // properly against each literal.
-                        if var.matcher.modifiers.nocase {
-                            dedup_atom.make_ascii_lowercase();
-                        }
-
-                        if !known_literals_of_var.insert((dedup_atom, start)) {
-                            continue;
-                        }
-                    }
+                    // Two literals of the same variable can provide the same atom at the same
+                    // position (for example, `{ ( AB CD EF 01 00 | AB CD EF 01 FF ) }`). Both
+                    // must be registered, as each literal is confirmed on its own. Matches found
+                    // twice this way are deduplicated when saved, see `insert_match`.
 
                     // Ensure the literals provided to the aho corasick are not
                     // duplicated. If multiple variables uses the same atoms,
